@@ -2,7 +2,7 @@
    Statements only; proofs are in Proofs/CalProofs.v and Proofs/SchedProofs.v. *)
 From Coq Require Import ZArith List Bool.
 Import ListNotations.
-Require Import BT.Num BT.Base BT.Cal BT.Records BT.Engine BT.Ops BT.Algos BT.Proofs.CalProofs BT.Proofs.SchedProofs BT.Proofs.SchedProofs2.
+Require Import BT.Num BT.Base BT.Cal BT.Records BT.Engine BT.Ops BT.Algos BT.Proofs.CalProofs BT.Proofs.SchedProofs BT.Proofs.SchedProofs2 BT.Proofs.PeriodAt.
 Local Open Scope Z_scope.
 
 (* calendar facts, for every timestamp (no range bound) *)
@@ -104,3 +104,21 @@ Theorem C12_run_every_n_fires_every_nth_date : forall n o k,
   ((every_n_iter n (n - o - 1) k =? n - 1)%Z = true <-> (Z.of_nat k mod n = o)%Z).
 Proof. exact run_every_n_fires. Qed.
 Print Assumptions C12_run_every_n_fires_every_nth_date.
+
+(* "... and never on a date outside the data": RunPeriod.__call__ as a function of the timestamp target.now answers False
+   for every timestamp that is not a date of the index, and on a date of the index it is run_period at that date's row
+   (so everything above applies), in particular False on the synthetic pre-start row *)
+Theorem C12_never_outside_the_data : forall k f e l (dates : list Z) (now : Z),
+  ~ In now dates -> run_period_at k f e l dates now = false.
+Proof. exact run_period_at_outside. Qed.
+Print Assumptions C12_never_outside_the_data.
+
+Theorem C12_on_a_date_of_the_data : forall k f e l (dates : list Z) (i : nat),
+  NoDup dates -> (i < length dates)%nat -> run_period_at k f e l dates (nth i dates 0) = run_period k f e l dates i.
+Proof. exact run_period_at_row. Qed.
+Print Assumptions C12_on_a_date_of_the_data.
+
+Theorem C12_never_on_the_synthetic_row : forall k f e l (d0 : Z) (dates : list Z),
+  run_period_at k f e l (d0 :: dates) d0 = false.
+Proof. exact run_period_at_first_row. Qed.
+Print Assumptions C12_never_on_the_synthetic_row.
